@@ -296,6 +296,7 @@ func binaryRef(op string, x, y *uv) (*uv, error) {
 		re.Sub(a, c)
 		im.Sub(b, d)
 	case "*":
+		beyondIfLarge(new(big.Rat).Mul(a, c), new(big.Rat).Mul(b, d), new(big.Rat).Mul(b, c), new(big.Rat).Mul(a, d))
 		re.Sub(t.Mul(a, c), new(big.Rat).Mul(b, d))
 		im.Add(t.Mul(b, c), new(big.Rat).Mul(a, d))
 	case "/":
@@ -303,12 +304,25 @@ func binaryRef(op string, x, y *uv) (*uv, error) {
 		if s.Sign() == 0 {
 			return nil, errReject
 		}
+		// go/constant computes a complex quotient through the products ac, bd, bc, ad, cc, dd and the sum cc+dd: they can
+		// leave its exact range although the operands and the quotient are inside (x / (65 * 1.0e1201i): dd has 7990 bits)
+		beyondIfLarge(s, new(big.Rat).Mul(c, c), new(big.Rat).Mul(d, d), new(big.Rat).Mul(a, c), new(big.Rat).Mul(b, d), new(big.Rat).Mul(b, c), new(big.Rat).Mul(a, d))
 		re.Add(t.Mul(a, c), new(big.Rat).Mul(b, d))
 		re.Quo(re, s)
 		im.Sub(t.Mul(b, c), new(big.Rat).Mul(a, d))
 		im.Quo(im, s)
 	}
 	return &uv{K: KComplex, Re: re, Im: im}, nil
+}
+
+// beyondIfLarge marks the tree as beyond go/constant's exact range (judge = go/types) when an intermediate value that
+// go/constant computes inside a complex product / quotient has 4000 bits or more
+func beyondIfLarge(qs ...*big.Rat) {
+	for _, q := range qs {
+		if q.Num().BitLen() >= 4000 || q.Denom().BitLen() >= 4000 {
+			refBeyond = true
+		}
+	}
 }
 
 func uvEqual(a, b *uv) bool {
